@@ -97,6 +97,12 @@ def generate(rng, tier):
         seg = [a, u1, b, u2] if vertical else [u1, a, u2, b]
         cases.append({"seg": [F(v) for v in seg], "rect": [F(xmin), F(xmax), F(ymin), F(ymax)], "exact": False,
                       "family": "nearly-parallel-to-edge/%s" % ("vertical" if vertical else "horizontal"), "style": rng.choice([0, 1, 2])})
+    # one bounds list edited in place between two calls (a page resized by the application), the same segment both times
+    for c in list(cases):
+        if rng.random() < 0.12:
+            xmin, xmax, ymin, ymax = c["rect"]; w = xmax - xmin; h = ymax - ymin; u = max(w, h, F(1))
+            prev = rng.choice([[xmin, xmax + u, ymin, ymax + u], [xmin - u, xmax, ymin - u, ymax], [xmin, xmin + w / 2, ymin, ymin + h / 2], [xmin + u, xmax + 2 * u, ymin, ymax]])
+            cases.append(dict(c, prev_rect=prev, style=0, family=c["family"] + "/bounds-edited-in-place"))
     return cases
 
 def _passes(seg, rect):
@@ -128,6 +134,15 @@ def run_impl(c):
     style = (hash((str(c["seg"]), str(c["rect"]))) % 3) if "style" not in c else c["style"]
     mk = (lambda a, b: (a, b)) if style == 2 else (lambda a, b: [a, b])
     segment = mk(mk(x1, y1), mk(x2, y2)); bounds = mk(mk(xmin, ymin), mk(xmax, ymax))
+    if "prev_rect" in c:
+        # the application keeps one bounds list and edits it in place (the page was resized): the same segment was clipped against the
+        # old values a moment ago; the answer now is the one for the values the list holds now
+        pxmin, pxmax, pymin, pymax = [conv(v) for v in c["prev_rect"]]
+        bounds = [[pxmin, pymin], [pxmax, pymax]]
+        try: plot_utils.clip_segment([[x1, y1], [x2, y2]], bounds)
+        except Exception: pass
+        bounds[0][0], bounds[0][1], bounds[1][0], bounds[1][1] = xmin, ymin, xmax, ymax
+        segment = [[x1, y1], [x2, y2]]
     acc, seg = plot_utils.clip_segment(segment, bounds)
     out = {"accept": bool(acc), "seg": [F(seg[0][0]), F(seg[0][1]), F(seg[1][0]), F(seg[1][1])]}
     if style == 1:
